@@ -20,7 +20,12 @@ def dets_only(*names):
 
 def walk_only(part, op):
     """relevant: the walk / tree shape, not individual detector models"""
-    return not (part.startswith("DIFF verdicts ") or part.startswith("DIFF det:"))
+    return not (part.startswith("DIFF verdicts ") or part.startswith("DIFF det:") or part.startswith("DIFF leaf"))
+
+
+def walk_not_shape(part, op):
+    """C03: the walk over whatever tree the runtime has; the shape produced by Extend is C14's business"""
+    return walk_only(part, op) and not part.startswith("DIFF tree-after-extend") and not part.startswith("DIFF xwalk ")
 
 
 def anything(part, op):
@@ -35,9 +40,15 @@ COMMON_ASSUME = [
 PROPS = {
     "C03": {
         "slices": ["tree", "corpus", "C03"],
-        "relevant_diff": walk_only,
+        "relevant_diff": walk_not_shape,
         "assumptions": COMMON_ASSUME + ["detectors are arbitrary functions of (header, limit) in the theorems"],
         "trusted_base": ["mime.go match/cloneHierarchy hand-modelled as Tree.walk; tied by walk ops (real verdict vector -> model walk = real Detect chain)"],
+    },
+    "C14": {
+        "slices": ["tree", "C14"],
+        "relevant_diff": walk_only,
+        "assumptions": COMMON_ASSUME + ["extension names are fresh for the Lookup clause (DESIGN.md §9)"],
+        "trusted_base": ["(*MIME).Extend / lookup hand-modelled as Tree.extendAt / Tree.lookup; tied by xwalk/xlookup ops (runtime tree dump after every script = model tree)"],
     },
     "C07": {
         "slices": ["tree", "C07", "corpus"],
